@@ -126,7 +126,7 @@ def oracle(p, run, obs):
                 bad.append(("after-termination", f"{e} ran after {ended[1]} in step {t}", dict(step=t)))
             if RANK[tag] < rank:
                 bad.append(("order", f"{e} out of documented order in step {t}", dict(step=t, step_events=pre)))
-            if tag == "Q" and any(x[0] in ("S", "TW") and x[1] == e[1] for x in pre[:k]):
+            if tag == "Q" and e[1] == 0 and any(x[0] in ("S", "TW") and x[1] == 0 for x in pre[:k]):   # (sub-scenario ids may have several instances)
                 # documented step 1: (a) temporal requirements, (b) time limit, (d) compose block, then termination conditions
                 bad.append(("order", f"requirement {e[2]} of scenario {e[1]} updated after its compose block / terminate-when in step {t}",
                             dict(step=t, step_events=pre)))
@@ -353,6 +353,8 @@ def fam_requirements(quick):
                             tab.append([t >= L - 1 for t in range(L + 4)])
                             sc["termwhen"] = [na]
                         elif mode == "top-compose":
+                            if L == 1:
+                                continue            # a compose block must contain a wait or do
                             sc["compose"] = [("WT",)] * (L - 1) + [("MK", 1)]
                         else:
                             if L == 1:
@@ -371,6 +373,8 @@ def fam_requirements(quick):
                         elif mode == "sub-after-s":
                             sub["limit"] = ((L - 1) * 0.5, "seconds")
                         elif mode == "sub-compose":
+                            if L == 1:
+                                continue
                             sub["compose"] = [("WT",)] * (L - 1) + [("MK", 2)]
                         elif mode == "sub-for":
                             inv = ("DSF", [1], L, "steps")
